@@ -917,7 +917,7 @@ def summarize(**kw):
             if names_vis.get(c) in kw:
                 continue
             if c not in names_vis:
-                continue  # a grouping column that is no longer visible groups, but is not shown
+                raise RefError("summarize: a grouping column is no longer visible")
             cols[c] = t._cols[c]
             vis.append((names_vis[c], c))
         if t._group:
